@@ -202,3 +202,42 @@ def check_prepare_initializer(kind: int, viz: bool, a: int) -> bool:
     init(*args)  # the way _process_worker calls it
     want = ([("user", (a, 2))] if kind == 1 else []) + ([("viz", ("cfg",))] if viz else [])
     return calls == want  # Nones filtered, order kept, each with its own initargs
+
+
+def check_fork_exec_twice(first: List[int], second: List[int], overlay: List[int]) -> bool:
+    """
+    pre: len(first) == 2 and len(second) == 2 and len(overlay) == 2
+    pre: all(0 <= s <= 2 for s in first) and all(0 <= s <= 2 for s in second) and all(0 <= s <= 2 for s in overlay)
+    pre: overlay[0] > 0 or overlay[1] > 0
+    post: _
+    """
+    # the same env= mapping object is used for every worker an executor ever spawns (respawn, resize):
+    # two spawns with the parent's environment changed in between; each child must get the parent's
+    # *current* environment overlaid with the mapping, and the mapping itself must be left alone
+    first = [_conc(s, 2) for s in first]
+    second = [_conc(s, 2) for s in second]
+    overlay = [_conc(s, 2) for s in overlay]
+    oenv = _env_from(overlay)
+    oenv_before = dict(oenv)
+    calls = []
+    cur = {}
+
+    saved_os, saved_mod = fe.os, _sys.modules.get("_posixsubprocess")
+    fe.os = NS(environ=cur, fsencode=_os.fsencode, pipe=lambda: (40, 41), close=lambda fd: None)
+    _sys.modules["_posixsubprocess"] = NS(fork_exec=lambda *a: (calls.append(a), 4242)[1])
+    try:
+        for sel in (first, second):
+            cur.clear()
+            cur.update(_env_from(sel))
+            fe.fork_exec(["python"], [5], env=oenv)
+    finally:
+        fe.os = saved_os
+        _sys.modules["_posixsubprocess"] = saved_mod
+    if oenv != oenv_before or len(calls) != 2:
+        return False
+    for sel, a in zip((first, second), calls):
+        merged = dict(_env_from(sel))
+        merged.update(oenv_before)
+        if sorted(a[5]) != sorted(_os.fsencode(f"{k}={v}") for k, v in merged.items()):
+            return False
+    return True
